@@ -19,16 +19,21 @@ def sh(cmd, **kw):
 
 res = {"seed": sid, "property": prop, "worktree": wt}
 # the patch is what the agent left applied
-patch = sh("git -C %s diff -- . ':!SEED' ':!_cfg'" % wt).stdout
+patch = sh("git -C %s diff -- kernel control tools applications" % wt).stdout
 assert patch.strip(), "no source change in worktree"
 r1 = sh("bash %s/SEED/demo_build.sh %s" % (wt, wt), timeout=1800)
 res["demo_with_change_rc"] = r1.returncode
-sh("git -C %s stash" % wt)
+pfile = "/tmp/try_seed_%s.diff" % sid
+open(pfile, "w").write(patch)
+rr = sh("git -C %s apply -R %s" % (wt, pfile))
+assert rr.returncode == 0, rr.stdout
 try:
     r0 = sh("bash %s/SEED/demo_build.sh %s" % (wt, wt), timeout=1800)
     res["demo_without_change_rc"] = r0.returncode
 finally:
-    sh("git -C %s stash pop" % wt)
+    rr = sh("git -C %s apply %s" % (wt, pfile))
+    assert rr.returncode == 0, rr.stdout
+    os.remove(pfile)
 print("demo: with change rc=%d, without rc=%d" % (r1.returncode, r0.returncode))
 print(r1.stdout[-600:])
 bdir = "/tmp/try_seed_build_%s" % sid
